@@ -20,8 +20,12 @@ def build(ck):
 RULE = ("every pair (plan, history) is executed on the real backend()/comm.c/error_context.c/call_out.c. "
         "plan = {no fault} + {task kind that raises an uncaught error() in {connect (user object's create under master "
         "connect), logon, process_input, verb via add_action, write_prompt, net_dead, heart_beat of object 0/1/2 of three, "
-        "call_out chain 0/1/2 of three, reset, clean_up, terminal_type (telnet suboption), input_to callback} x {1st, 2nd "
-        "execution} x {once, every time from then on} x master error_handler {logs, itself raises}} + {one hostile operation "
+        "call_out chain 0/1/2 of three, reset() of object 0/1/2 of three that are due in the same sweep, clean_up() of object "
+        "0/1/2 of three likewise, terminal_type (telnet suboption), input_to callback} x {1st, 2nd "
+        "execution} x {once, every time from then on} x master error_handler {logs, itself raises}} + {two faults within one "
+        "tick interval: heart-beat object 0/1/2 raises (at the start-up tick / the first tick of the loop), the verb `act` then "
+        "switches the lost heart beats back on or destructs that object, and another task raises: the same `act` after that "
+        "action, the next `act`, or the next logon} + {one hostile operation "
         "run by the verb `act`: input_to/get_char with an existing and a non-existent function, second input_to, exec() onto a "
         "new object, snoop, destruct of the command giver (verb returns 1 / 0), destruct of another user (1 / 0), "
         "remove_call_out, set_heart_beat(0), ed} x {network mode, console mode}. "
@@ -47,21 +51,23 @@ ASSUME = ["one external event per wait (plus level-triggered write readiness); t
 def parts(tier):
     """(tag, harness, args, deadline_s)"""
     core = ["--handlers=1", "--nths=1"]
+    hb2q = ["--hb2=1", "--hb2-full=0", "--hb2-modes=1"]      # two-fault family: start-up tick, second fault in `act`, network mode
     if tier == "quick":
-        return [("d3-all-plain", "h_c09_plain", ["--depth=3", "--maxconn=2"], 75),
-                ("d3-core-asan", "h_c09", ["--depth=3", "--maxconn=2"] + core, 55),
-                ("d4-core-plain", "h_c09_plain", ["--depth=4", "--maxconn=2"] + core, 90)]
-    return [("d4-all-plain", "h_c09_plain", ["--depth=4", "--maxconn=2"], 650),
-            ("d3-all-asan", "h_c09", ["--depth=3", "--maxconn=2"], 200),
-            ("d4-core-asan", "h_c09", ["--depth=4", "--maxconn=2"] + core, 600),
-            ("d5-core-plain", "h_c09_plain", ["--depth=5", "--maxconn=2"] + core, 800)]
+        return [("d3-all-plain", "h_c09_plain", ["--depth=3", "--maxconn=2"], 65),
+                ("d3-core-asan", "h_c09", ["--depth=3", "--maxconn=2"] + core + hb2q, 60),
+                ("d4-core-plain", "h_c09_plain", ["--depth=4", "--maxconn=2", "--hb2=0"] + core, 95)]
+    return [("d4-all-plain", "h_c09_plain", ["--depth=4", "--maxconn=2"], 800),
+            ("d3-all-asan", "h_c09", ["--depth=3", "--maxconn=2"], 300),
+            ("d4-core-asan", "h_c09", ["--depth=4", "--maxconn=2"] + core + hb2q, 650),
+            ("d5-core-plain", "h_c09_plain", ["--depth=5", "--maxconn=2", "--hb2=0"] + core, 550)]
 
 def run(ck):
     exes = build(ck)
     for tag, h, args, dl in parts(ck.tier):
         ck.explore(exes[h], args, tag, budget=0, deadline_s=dl, timeout_ms=30000)
     cov = vlib.mc_coverage(ck.parts, RULE, extra={
-        "plans": "286 (143 per mode: 1 without fault + 128 fault plans + 14 hostile operations); 'core' parts use error_handler=logs, 1st execution only (94 plans)",
+        "plans": "422 (211 per mode: 1 without fault + 160 single-fault plans + 36 two-fault plans + 14 hostile operations); 'core' parts use error_handler=logs, 1st execution only (110 single-fault/hostile plans) and at most the 12 two-fault plans {start-up tick, second fault in `act`, network mode}",
+        "complete_reset_or_clean_up_sweeps": sum(p.get("counters", {}).get("complete_reset_or_clean_up_sweeps", 0) for p in ck.parts),
         "profiles": "parts tagged -asan run the ASan+UBSan build (memory errors of any kind are findings); parts tagged -plain run the same harness uninstrumented (crashes, exits, hangs and all harness oracles, no silent memory errors)",
         "depth_per_part": {p["part"]: p["args"] for p in ck.parts},
         "histories_completed": sum(p.get("counters", {}).get("histories_completed", 0) for p in ck.parts),
